@@ -716,4 +716,74 @@ theorem run_over {g : Graph} {ncls : Nat} (st : Static g ncls) (hnr : noRootsB g
     unfold cnt at c
     omega
 
+/-! ## the number of results is bounded by the retry budgets (C03) -/
+
+/-- every node lies in a class the budget theorems of C03 cover without further conditions on the state: a class of
+stateless tests (no set states) without object roots whose copies agree on `max_tries`, or a class of setup tests
+(`statefulClass`: set states, no object roots, agreement on `max_tries` and the scope shape, the result-name filter agrees
+with the scope) whose `max_concurrent_tries` is unset or within `max(max_tries, 1)` -/
+def classesOKB (g : Graph) : Bool :=
+  (List.range g.nodes.length).all (fun n =>
+    statelessClass g (g.node n).cls (g.node n).maxTries ||
+    (statefulClass g (g.node n).cls (g.node n).maxTries (g.node n).shape &&
+      mctWithin g (g.node n).cls (g.node n).maxTries))
+
+/-- `Σ_n max(max_tries n, 1)` -/
+def resultBound (g : Graph) : Nat :=
+  ((List.range g.nodes.length).map (fun n => (max ((g.node n).maxTries.getD 1) 1).toNat)).sum
+
+/-- the explicit bound on the number of `resume` steps of the only worker -/
+def stepBound (g : Graph) : Nat := 23 * resultBound g + 23
+
+theorem inScopeOf_self (sh : Shape) (g : Graph) (v : Nat) : inScopeOf sh g v v = true := by
+  cases sh <;> simp [inScopeOf]
+
+/-- one worker: what the only observer counts of a setup class is all the class has -/
+theorem classLen_le_scopedLen {g : Graph} (h1 : g.workers.length = 1) {c : Nat} {M : Option Int} {sh : Shape}
+    (hC : BClass g c M sh) {s : State} (b : BInv g c M sh s All) : classLen g s c ≤ scopedLen g s c sh 0 := by
+  have h0 : 0 < g.workers.length := by rw [h1]; exact Nat.one_pos
+  refine sum_map_le _ _ _ (fun j hj => ?_)
+  obtain ⟨hj1, hj2⟩ := (mem_classNodes g c j).mp hj
+  by_cases hne : (s.nd j).results = []
+  · rw [hne]; exact Nat.zero_le _
+  · have hid : g.idIn 0 j = true := by
+      rcases b.p1 j hj1 hj2 hne with ⟨u, tag, _, ⟨ph, dir, uid, wait, hpc, _⟩, _⟩ | ⟨u, hu, hid, _⟩
+      · obtain ⟨_, _, hid, _⟩ := b.infl u trivial j ph dir uid tag wait hpc hj2
+        have hu : u < s.workers.length := lt_of_isTest s u (by rw [hpc]; rfl)
+        rw [b.workersLen, h1] at hu
+        have : u = 0 := by omega
+        rw [this] at hid; exact hid
+      · rw [h1] at hu
+        have : u = 0 := by omega
+        rw [this] at hid; exact hid
+    have hseen : seen g sh 0 j = true := by
+      rw [hC.scope j hj1 hj2 0 0 h0 h0 hid]; exact inScopeOf_self sh g 0
+    simp only [hseen, if_true]
+    exact Nat.le_refl _
+
+theorem total_le_resultBound {g : Graph} {ncls : Nat} (st : Static g ncls) (hcl : classesOKB g = true)
+    {store : List (String × List (String × String))} {s : State} (hP : ReachableP g ncls store s) :
+    total g s ≤ resultBound g := by
+  have hR := hP.reachableR
+  refine sum_map_le _ _ _ (fun n hn => ?_)
+  have hn' : n < g.nodes.length := List.mem_range.mp hn
+  have hle : (s.nd n).results.length ≤ classLen g s (g.node n).cls :=
+    Term.le_sum_of_mem (g.classNodes (g.node n).cls) (fun j => (s.nd j).results.length) n
+      ((mem_classNodes g _ n).mpr ⟨hn', rfl⟩)
+  unfold classesOKB at hcl
+  rw [List.all_eq_true] at hcl
+  have hc := hcl n hn
+  rw [Bool.or_eq_true, Bool.and_eq_true] at hc
+  rcases hc with hc | ⟨hc, hm⟩
+  · have := hR.budget st.wf (g.node n).cls (g.node n).maxTries hc
+    omega
+  · have hC := statefulClass_spec hc
+    have b := hR.binv st.wf hC
+    have h0 : 0 < g.workers.length := by rw [st.one]; exact Nat.one_pos
+    have h1 := classLen_le_scopedLen st.one hC b
+    have h2 := b.budget 0 h0 [] List.nodup_nil (fun u hu => by cases hu)
+    have h3 := classLimit_le_of_mctWithin hC hm s hP.noBump
+    simp only [List.length_nil, Nat.add_zero] at h2
+    omega
+
 end I2N.Trav.Global
